@@ -617,7 +617,7 @@ def jobs(tier, seed):
     else:
         grids = [((2, 2, 1), False, A), ((2, 2, 1), True, A), ((3, 2, 1), False, A), ((3, 2, 1), True, ['dijkstra', 'simple', 'minmax-energy']),
                  ((1, 2, 3), True, A), ((2, 3, 1), False, A), ((3, 3, 1), False, ['dijkstra', 'simple']), ((2, 2, 2), False, ['dijkstra', 'simple'])]
-        ggrids = [((2, 2, 2), True), ((3, 2, 1), True), ((2, 2, 1), False), ((3, 3, 2), True), ((2, 3, 4), False)]
+        ggrids = [((2, 2, 2), True), ((3, 2, 1), True), ((2, 2, 1), False), ((3, 3, 1), True), ((2, 3, 2), False)]
         fgrids = [((2, 1, 1), False), ((2, 2, 1), False), ((2, 2, 1), True), ((3, 1, 1), False)]
         perc = [((2, 1, 1), 'x', 1), ((1, 2, 1), 'y', 2), ((1, 1, 2), 'z', 1), ((1, 1, 1), 'xy', 1), ((2, 1, 1), 'x', 2), ((1, 1, 1), 'xyz', 1),
                 ((3, 1, 1), 'x', 1), ((1, 2, 1), 'xy', 1)]
@@ -638,6 +638,9 @@ def jobs(tier, seed):
         js.append(dict(name=f'percolate_layout_3x4x1_{tag}', fn='percolate_layout_job',
                        params=dict(shape=[3, 4, 1], percolate='x', passable=chan, peaks=peaks)))
     js.append(dict(name='graph_3x3x3_diag_allpassable', fn='graph_job', params=dict(shape=[3, 3, 3], diagonal=True, free='passable')))
+    if tier != 'quick':   # larger grids with unequal axes: structure only (every voxel passable, so no fork per voxel)
+        js.append(dict(name='graph_2x3x4_faces_allpassable', fn='graph_job', params=dict(shape=[2, 3, 4], diagonal=False, free='passable')))
+        js.append(dict(name='graph_4x3x2_diag_allpassable', fn='graph_job', params=dict(shape=[4, 3, 2], diagonal=True, free='passable')))
     js.append(dict(name='wrapped_sites', fn='wrap_job', params={}))
     if tier != 'quick':
         for i in range(16):
